@@ -9,6 +9,14 @@ CLAIMED = {
             'bounded, solver-complete inside the bound: for every concrete shape on the grid and ALL real contents the kernel equals its textbook definition; counterexamples are replayed natively (IEEE, ASan/UBSan)',
             'exact real arithmetic stands in for IEEE doubles (rounding is outside the claim); no value equals the MISSING code; shapes on the stated grid only; trusted: cbmc 6.11, z3 5.1, lsv rewriter/slicer',
             'DESIGN.md 5/C11'),
+    'C13': ('CBMC bit-precise symbolic execution of the real slicing code with rows and thread count symbolic (SAT); CBMC->real-arithmetic VC->z3 for value equality with the sequential kernels',
+            'bounded, solver-complete inside the bound: for ALL rows<=40 and threads<=24 the worker ranges of every slicing site partition [0,rows); for concrete small shapes and all real contents the multithreaded result equals the single-threaded one; index map bijective for all n<=40',
+            'workers are run synchronously by a recording pthread model (OS scheduling, libpthread and weak memory are outside); exact reals stand in for doubles in the value obligations; worker-argument struct layouts re-extracted from source each run',
+            'DESIGN.md 5/C13'),
+    'C14': ('CBMC bit-precise bounded model checking (SAT) of the real container code: every operation history up to the bound from every initial shape, symbolic contents/indices, shadow model + representation invariant after every step',
+            'bounded, solver-complete inside the bound: all histories of length <=2 (thorough: <=3 on the core alphabet) over matrix/dvector/uivector/ivector/tensor/list operations with operand lengths 0..4; CBMC memory model decides bounds, use-after-free and double free; counterexamples replayed under ASan/UBSan',
+            'allocation never fails (library aborts in xmalloc); strvector not encoded; histories beyond the bound rest on the invariant asserted after every step; trusted: cbmc 6.11 memory model, typed memmove and insertion-sort qsort models',
+            'DESIGN.md 5/C14'),
 }
 NA = {
     'C16': 'behaviour lives inside SQLite and libc decimal formatting (FFI + file I/O); nothing of it is source in /repo that could be executed symbolically - an encoding would verify a hand-written SQL fake, not the code',
